@@ -305,9 +305,14 @@ func (g *G) block(depth int) []string {
 				cont = strings.Repeat(" ", max(0, w+g.r.Range(-2, 1)))
 			}
 			var inner []string
-			if g.r.Chance(1, 10) {
+			if g.r.Chance(1, 6) {
 				inner = []string{""} // empty item / item starting with a blank line
 				if g.r.Chance(1, 2) {
+					// a second blank line closes the empty item (spec example 280);
+					// inside a block quote the blank lines are written `>`
+					inner = append(inner, "")
+				}
+				if g.r.Chance(2, 3) {
 					inner = append(inner, g.block(depth-1)...)
 				}
 				first = lead + marker
